@@ -770,3 +770,90 @@ def covered(left, rights, alpha):
             if len(seen) > 200000:
                 raise AnalysisError("coverage product too large")
     return True, None, rs
+
+
+# ----------------------------------------------------------------------
+# bounds on what a match can contain
+# ----------------------------------------------------------------------
+
+INF = float("inf")
+
+
+def max_count(sub, ch, flags=None):
+    """upper bound on the occurrences of character `ch` in any string the
+    (sub)pattern consumes (INF when unbounded); look-arounds consume nothing"""
+    if flags is None:
+        flags = flags_of(sub) if hasattr(sub, "state") else 0
+    total = 0
+    for op, av in sub:
+        if op in CHAR_OPS:
+            total += 1 if atom_matches((op, av), ch, flags) else 0
+        elif op == OP.BRANCH:
+            total += max([max_count(a, ch, flags) for a in av[1]] or [0])
+        elif op == OP.SUBPATTERN:
+            total += max_count(av[3], ch, flags)
+        elif op in REPEATS:
+            lo, hi, body = av
+            b = max_count(body, ch, flags)
+            if b:
+                total += INF if hi == MAXREPEAT else hi * b
+        elif op in (OP.ASSERT, OP.ASSERT_NOT, OP.AT):
+            pass
+        elif hasattr(OP, "ATOMIC_GROUP") and op == OP.ATOMIC_GROUP:
+            total += max_count(av, ch, flags)
+        elif op == OP.GROUPREF:
+            total += INF
+        else:
+            raise Unsupported("regex op %s not modelled (max_count)" % (op,))
+    return total
+
+
+def finite_language(sub, flags=None, limit=64):
+    """the set of strings the (sub)pattern can consume, when finite and small;
+    None when unbounded, larger than `limit`, or built from open character classes"""
+    if flags is None:
+        flags = flags_of(sub) if hasattr(sub, "state") else 0
+    langs = [""]
+    for op, av in sub:
+        if op == OP.LITERAL:
+            part = [chr(av)]
+        elif op == OP.IN:
+            members = []
+            for o, a in av:
+                if o == OP.LITERAL:
+                    members.append(chr(a))
+                else:
+                    return None
+            part = members
+        elif op == OP.BRANCH:
+            part = []
+            for alt in av[1]:
+                l = finite_language(alt, flags, limit)
+                if l is None:
+                    return None
+                part.extend(l)
+        elif op == OP.SUBPATTERN:
+            part = finite_language(av[3], flags, limit)
+            if part is None:
+                return None
+        elif op in REPEATS:
+            lo, hi, body = av
+            if hi == MAXREPEAT or hi > 3:
+                return None
+            b = finite_language(body, flags, limit)
+            if b is None:
+                return None
+            part = []
+            for k in range(lo, hi + 1):
+                cur = [""]
+                for _ in range(k):
+                    cur = [x + y for x in cur for y in b]
+                part.extend(cur)
+        elif op in (OP.ASSERT, OP.ASSERT_NOT, OP.AT):
+            continue
+        else:
+            return None
+        langs = [x + y for x in langs for y in part]
+        if len(langs) > limit:
+            return None
+    return sorted(set(langs))
